@@ -610,4 +610,299 @@ Section Read2.
   Lemma coerce_fn_string_to_float_error v :
     (forall s, v = DStr s -> pf s = None) -> coerce_fn CoStringToFloat v = None.
   Proof. intros H. destruct v; try reflexivity. simpl. now rewrite (H s eq_refl). Qed.
+
+  (* ================================================================ (5) Precision > 0, made explicit *)
+
+  (* the float cell a driver value becomes in a float column read with precision p > 0 *)
+  Definition fix_cell (p : Z) (v : dval) : N :=
+    match v with DFloat x => fixed x p | _ => nan_bits end.
+
+  Lemma prep_some prec vals : prep Some fixed prec vals = Some (map (fix_val fixed prec) vals).
+  Proof.
+    unfold prep. induction vals as [|v vs IH]; [reflexivity|].
+    simpl. rewrite IH. destruct v; reflexivity.
+  Qed.
+
+  Lemma find_map_fix prec vals :
+    find (fun v => negb (spec_is_null v)) (map (fix_val fixed prec) vals)
+    = option_map (fix_val fixed prec) (find (fun v => negb (spec_is_null v)) vals).
+  Proof.
+    induction vals as [|v vs IH]; [reflexivity|]. simpl. rewrite IH. destruct v; reflexivity.
+  Qed.
+
+  Lemma to_float_fix p : (0 < p)%Z -> forall vals xs,
+    opt_all (map to_float vals) = Some xs ->
+    opt_all (map to_float (map (fix_val fixed p) vals)) = Some (map (fix_cell p) vals).
+  Proof.
+    intros Hp. induction vals as [|v vs IH]; intros xs H; [reflexivity|].
+    simpl in H. apply opt_all_cons_inv in H as (a & r & Ha & Hr & ->).
+    simpl. rewrite (IH r Hr).
+    destruct v; try discriminate; simpl; [|reflexivity].
+    replace (0 <? p)%Z with true by (symmetry; apply Z.ltb_lt; exact Hp). reflexivity.
+  Qed.
+
+  Lemma spec_column_float_fix p vals xs :
+    (0 < p)%Z -> spec_column vals = Some (CFloat xs) ->
+    spec_column (map (fix_val fixed p) vals) = Some (CFloat (map (fix_cell p) vals)).
+  Proof.
+    intros Hp. unfold spec_column. rewrite find_map_fix.
+    destruct (find (fun v => negb (spec_is_null v)) vals) as [v0|]; [|discriminate].
+    destruct v0; simpl; try discriminate;
+      try (destruct (opt_all _); simpl; discriminate).
+    fold to_float. destruct (opt_all (map to_float vals)) as [ys|] eqn:E; [|discriminate].
+    intros _. rewrite (to_float_fix p Hp vals ys E). reflexivity.
+  Qed.
+
+  Lemma opt_all_in {A B} (g : A -> option B) l r v :
+    opt_all (map g l) = Some r -> In v l -> g v <> None.
+  Proof.
+    revert r. induction l as [|a l IH]; intros r H Hin; [contradiction|].
+    simpl in H. apply opt_all_cons_inv in H as (b & r' & Hb & Hr & ->).
+    destruct Hin as [->|Hin]; [congruence|eauto].
+  Qed.
+
+  Lemma spec_column_nofloat vals d :
+    spec_column vals = Some d -> (forall xs, d <> CFloat xs) -> forall x, ~ In (DFloat x) vals.
+  Proof.
+    unfold spec_column. intros H Hd x Hin.
+    destruct (find (fun v => negb (spec_is_null v)) vals) as [v0|]; [|discriminate].
+    destruct v0; try discriminate;
+      (destruct (opt_all _) as [r|] eqn:E; [|discriminate]; simpl in H; inversion H; subst;
+       try (eapply Hd; reflexivity);
+       exact (opt_all_in _ _ _ _ E Hin eq_refl)).
+  Qed.
+
+  Lemma map_fix_id p vals :
+    (forall x, In (DFloat x) vals -> (p <= 0)%Z \/ fixed x p = x) -> map (fix_val fixed p) vals = vals.
+  Proof.
+    induction vals as [|v vs IH]; intros H; [reflexivity|].
+    simpl. rewrite IH by (intros x Hx; apply H; now right). f_equal.
+    destruct v; try reflexivity. destruct (H b (or_introl eq_refl)) as [Hp|Hf].
+    - now apply fix_val_nonpos.
+    - simpl. rewrite Hf. now destruct (0 <? p)%Z.
+  Qed.
+
+  (* a float column read with precision p > 0: every value goes through float.Fixed, every NULL
+     (leading ones included, back-filled) is math.NaN() and does NOT go through float.Fixed *)
+  Lemma scan_precision_float p vals xs :
+    (0 < p)%Z -> spec_column vals = Some (CFloat xs) ->
+    exists c, scan_col (new_column p None) vals = Ok c
+              /\ col_data c = Some (CFloat (map (fix_cell p) vals)).
+  Proof.
+    intros Hp Hs.
+    destruct (scan_col_prep_spec vals _ _ p None (prep_some p vals) (spec_column_float_fix p vals xs Hp Hs))
+      as (c & Hc & Hd & _).
+    eauto.
+  Qed.
+
+  (* a column whose float values float.Fixed leaves alone (in particular a column without floats):
+     the precision has no effect *)
+  Lemma scan_precision_fixpoint p vals d :
+    spec_column vals = Some d -> (forall x, In (DFloat x) vals -> (p <= 0)%Z \/ fixed x p = x) ->
+    exists c, scan_col (new_column p None) vals = Ok c /\ col_data c = Some d.
+  Proof.
+    intros Hs Hf.
+    assert (Hp : prep (g_co None) fixed p vals = Some vals) by (simpl; rewrite prep_some; now rewrite map_fix_id).
+    destruct (scan_col_prep_spec vals vals d p None Hp Hs) as (c & Hc & Hd & _). eauto.
+  Qed.
+
+  (* int, bool and string columns are returned unchanged whatever the precision *)
+  Lemma scan_precision_other p vals d :
+    spec_column vals = Some d -> (forall xs, d <> CFloat xs) ->
+    exists c, scan_col (new_column p None) vals = Ok c /\ col_data c = Some d.
+  Proof.
+    intros Hs Hd. apply scan_precision_fixpoint; auto.
+    intros x Hx. exfalso. exact (spec_column_nofloat vals d Hs Hd x Hx).
+  Qed.
+
+  (* if float.Fixed returns NaN and the infinities unchanged (the guard of Fixed: IsNaN(scaled) ||
+     Abs(scaled) >= 1<<53 -> return num), a column of such values is untouched by the precision *)
+  Lemma scan_precision_special p vals d :
+    (forall x, exp_all_ones x = true -> fixed x p = x) ->
+    (forall x, In (DFloat x) vals -> exp_all_ones x = true) ->
+    spec_column vals = Some d ->
+    exists c, scan_col (new_column p None) vals = Ok c /\ col_data c = Some d.
+  Proof.
+    intros Hfix Hvals Hs. apply scan_precision_fixpoint; auto.
+  Qed.
+
+  Lemma is_nan_exp_all_ones x : is_nan x = true -> exp_all_ones x = true.
+  Proof. unfold is_nan, exp_all_ones. intros H. now apply andb_true_iff in H as [H _]. Qed.
+
+  (* ================================================================ (6) the round trip with options *)
+
+  Lemma roundtrip_options f conf cols :
+    (forall n, In n (map fst (fcols f)) -> co_of conf n = None) ->
+    ((q_precision conf <= 0)%Z \/
+     forall rows row x, spec_rows f = Some rows -> In row rows -> In (DFloat x) row ->
+                        fixed x (q_precision conf) = x) ->
+    spec_frame f = Some cols ->
+    exists log,
+      to_sql f conf (fun _ => true) = (log, SOk) /\
+      length log = length (findex f) /\
+      read_sql conf (store_of (map fst (fcols f)) log) no_faults = Ok cols.
+  Proof.
+    intros Hco Hp Hs. unfold spec_frame in Hs. destruct (spec_rows f) as [rows|] eqn:Er; [|discriminate].
+    exists (map (mk_stmt f conf) rows). split; [now apply to_sql_statements|]. split.
+    - rewrite map_length. now apply spec_rows_length.
+    - unfold store_of. rewrite map_map. unfold mk_stmt. simpl. rewrite map_id.
+      apply read_sql_gen_spec. rewrite spec_read_gen_same; [exact Hs|].
+      intros j Hj. apply prep_id. intros v Hv.
+      unfold column_vals in Hv. apply in_map_iff in Hv as (r & Hv & Hr).
+      destruct (nth_in_or_default j r DNull) as [Hin|Hd]; [|left; congruence].
+      right. split.
+      + unfold g_of. rewrite Hco by (apply nth_In; exact Hj). reflexivity.
+      + destruct v; try reflexivity. destruct Hp as [Hp|Hp]; [now apply fix_val_nonpos|].
+        simpl. rewrite Hv in Hin. rewrite (Hp rows r b eq_refl Hr Hin). now destruct (0 <? q_precision conf)%Z.
+  Qed.
+
+  (* ================================================================ one-column result sets *)
+
+  Definition one_col (vals : list dval) : list (list dval) := map (fun v => [v]) vals.
+
+  Lemma column_vals_one_col vals : column_vals (one_col vals) 0 = vals.
+  Proof.
+    unfold column_vals, one_col. rewrite map_map. simpl. apply map_id.
+  Qed.
+
+  Lemma spec_column_nonempty vals d : spec_column vals = Some d -> vals <> [].
+  Proof. intros H ->. discriminate. Qed.
+
+  (* the column-level statement as a statement about ReadSQL on a result set with one column *)
+  Lemma read_sql_single conf n vals vals' d :
+    check_name n = true ->
+    prep (g_of conf n) fixed (q_precision conf) vals = Some vals' -> spec_column vals' = Some d ->
+    read_sql conf (mkRS [n] (one_col vals)) no_faults = Ok [(n, d)].
+  Proof.
+    intros Hn Hp Hs. apply read_sql_gen_spec. unfold spec_read_gen.
+    assert (H1 : forallb (fun r : list dval => Nat.eqb (length r) (length [n])) (one_col vals) = true).
+    { apply forallb_forall. intros r Hr. unfold one_col in Hr. apply in_map_iff in Hr as (v & <- & _). reflexivity. }
+    rewrite H1. cbn [negb nodupb existsb forallb andb]. rewrite Hn. cbn [negb andb].
+    assert (H3 : Nat.eqb (length (one_col vals)) 0 = false).
+    { apply Nat.eqb_neq. unfold one_col. rewrite map_length.
+      assert (Hl : length vals' = length vals)
+        by (unfold prep in Hp; apply opt_all_length in Hp; now rewrite map_length in Hp).
+      pose proof (spec_column_nonempty _ _ Hs). destruct vals'; [congruence|]. simpl in Hl. lia. }
+    rewrite H3. cbn [length seq map nth]. rewrite column_vals_one_col.
+    match goal with |- context [match ?p with Some _ => _ | None => _ end] =>
+      replace p with (Some vals') by (symmetry; exact Hp) end.
+    rewrite Hs. reflexivity.
+  Qed.
+
+  Lemma read_sql_precision_float conf n vals xs :
+    check_name n = true -> co_of conf n = None -> (0 < q_precision conf)%Z ->
+    spec_column vals = Some (CFloat xs) ->
+    read_sql conf (mkRS [n] (one_col vals)) no_faults
+    = Ok [(n, CFloat (map (fix_cell (q_precision conf)) vals))].
+  Proof.
+    intros Hn Hco Hp Hs. apply read_sql_single with (vals' := map (fix_val fixed (q_precision conf)) vals); auto.
+    - unfold g_of. rewrite Hco. apply prep_some.
+    - eapply spec_column_float_fix; eauto.
+  Qed.
+
+  (* column level: an erroring coercion on any non-NULL value of the column *)
+  Lemma scan_col_coercion_error vals prec co v :
+    In v vals -> v <> DNull -> g_co co v = None -> scan_col (new_column prec co) vals = Fail.
+  Proof.
+    intros Hin Hnn Hg. apply scan_col_prep_error. eapply prep_error_at; eauto.
+  Qed.
+
+  (* ================================================================ ReadSQL never panics, any configuration *)
+
+  Lemma col_scan_no_panic2 c v : col_scan c v <> Panic.
+  Proof. rewrite col_scan_gen. apply gen_scan_no_panic. Qed.
+
+  Lemma scan_row_no_panic2 : forall cols vals, scan_row cols vals <> Panic.
+  Proof.
+    induction cols as [|c cs IH]; intros vals; destruct vals as [|v vs]; simpl; try discriminate.
+    destruct (col_scan c v) as [c1| |] eqn:E1; simpl; try discriminate.
+    - destruct (scan_row cs vs) as [cs1| |] eqn:E2; simpl; try discriminate.
+      exfalso. eapply IH; eauto.
+    - exfalso. eapply col_scan_no_panic2; eauto.
+  Qed.
+
+  Definition st_len (st : list column * list bytes) : Prop := (length (fst st) <= length (snd st))%nat.
+
+  Lemma read_row_st_len conf names st row :
+    st_len st ->
+    match read_row conf names st row with
+    | Ok st' => st_len st'
+    | Fail => True
+    | Panic => False
+    end.
+  Proof.
+    intros Hlen. destruct st as [columns colNames]. unfold Sql.read_row.
+    assert (Hgen : forall cols1 cn1, (length cols1 <= length cn1)%nat ->
+              match (do cols' <- scan_row cols1 row; Ok (cols', cn1)) with
+              | Ok st' => st_len st' | Fail => True | Panic => False end).
+    { intros cols1 cn1 Hl. destruct (scan_row cols1 row) as [cols'| |] eqn:E; simpl; auto.
+      - unfold st_len. simpl. rewrite (scan_row_length fixed pf _ _ _ E). exact Hl.
+      - eapply scan_row_no_panic2; eauto. }
+    destruct columns as [|c0 cs].
+    - destruct (match q_coerce conf with Some m => coerce_check m colNames | None => true end); [|exact I].
+      cbn [obind]. apply Hgen. unfold alloc_columns. now rewrite map_length.
+    - cbn [obind]. apply Hgen. exact Hlen.
+  Qed.
+
+  Lemma read_rows_st_len conf names fail_at : forall rows k st,
+    st_len st ->
+    match read_rows conf names fail_at k st rows with
+    | Ok st' => st_len st'
+    | Fail => True
+    | Panic => False
+    end.
+  Proof.
+    induction rows as [|row rest IH]; intros k st Hst; simpl.
+    - destruct (match fail_at with Some j => Nat.eqb j k | None => false end); auto.
+    - destruct (match fail_at with Some j => Nat.eqb j k | None => false end); auto.
+      pose proof (read_row_st_len conf names st row Hst) as Hr.
+      destruct (Sql.read_row fixed pf conf names st row) as [st'| |]; simpl;
+        [apply IH; exact Hr|exact I|exact Hr].
+  Qed.
+
+  Lemma read_sql_no_panic2 conf rs flt : read_sql conf rs flt <> Panic.
+  Proof.
+    unfold Sql.read_sql. destruct (sf_prepare flt); [discriminate|].
+    destruct (sf_query flt); [discriminate|]. unfold Sql.io_read_sql.
+    assert (H0 : st_len ([], [])) by (unfold st_len; simpl; lia).
+    pose proof (read_rows_st_len conf (rs_names rs) (sf_row flt) (rs_rows rs) 0%nat ([], []) H0) as Hr.
+    destruct (Sql.read_rows fixed pf conf (rs_names rs) (sf_row flt) 0 ([], []) (rs_rows rs)) as [[cols cn]| |];
+      simpl; try discriminate; [|contradiction].
+    unfold st_len in Hr. simpl in Hr.
+    destruct (result_map cols cn 0 []) as [m| |] eqn:Em; simpl; try discriminate.
+    - apply qframe_new_no_panic.
+    - exfalso. apply (result_map_no_panic pf cols cn 0%nat [] ltac:(simpl; lia) Em).
+  Qed.
+
+  Lemma read_sql_coercion_error_fails conf rs row j n v :
+    In row (rs_rows rs) -> nth_error (rs_names rs) j = Some n -> nth_error row j = Some v ->
+    v <> DNull -> g_of conf n v = None ->
+    read_sql conf rs no_faults = Fail.
+  Proof.
+    intros Hrow Hn Hv Hnn Hg. apply outcome_fail.
+    - intros res. eapply read_sql_coercion_error; eauto.
+    - apply read_sql_no_panic2.
+  Qed.
+
+  (* the same for the two shipped coercions, spelled out: Int64ToBool accepts int64 only, StringToFloat
+     accepts a string (not []byte) that strconv.ParseFloat accepts *)
+  Definition coercion_rejects (k : coerce_kind) (v : dval) : Prop :=
+    match k, v with
+    | _, DNull => False
+    | CoInt64ToBool, DInt _ => False
+    | CoStringToFloat, DStr s => pf s = None
+    | _, _ => True
+    end.
+
+  Lemma read_sql_shipped_coercion_error conf rs row j n v k :
+    In row (rs_rows rs) -> nth_error (rs_names rs) j = Some n -> nth_error row j = Some v ->
+    co_of conf n = Some k -> coercion_rejects k v ->
+    read_sql conf rs no_faults = Fail.
+  Proof.
+    intros Hrow Hn Hv Hk Hrej.
+    apply read_sql_coercion_error_fails with (row := row) (j := j) (n := n) (v := v); auto.
+    - intros ->. destruct k; exact Hrej.
+    - unfold g_of. rewrite Hk. simpl. destruct k, v; simpl in *; try reflexivity; try contradiction.
+      now rewrite Hrej.
+  Qed.
 End Read2.
